@@ -561,3 +561,24 @@ def wellformed_guards(ck, F):
         ck.ob(R, "sheet_data-inserter|%s" % h["name"], h["name"] in allowed,
               "%s inserts into Worksheet.sheet_data directly, bypassing update_cell's grid validation" % F.qname_of(path), h["file"], h["line"],
               sample={"fn": h["name"]})
+
+
+def style_last(ck, F, rule="STYLE-LAST"):
+    """Model::move_cell re-enters the content at the target (which runs unit inference and may restyle the cell) and
+    copies the source style: the style copy comes after every re-entry, so the moved cell keeps its own format."""
+    b = ck.need(F.one, "model::Model::move_cell")
+    copies = [(bi, t) for bi, t in b.calls_to("Worksheet::set_cell_style")]
+    reentries = [(bi, t) for bi, t in b.calls() if (b.callee_q(t) or "").rsplit("::", 1)[-1] in
+                 ("set_user_input", "set_user_array_formula", "set_user_input_with_link_diffs", "set_cell_with_formula", "update_cell_with_text",
+                  "update_cell_with_number", "update_cell_with_bool", "set_cell_with_string")]
+    ck.ob(rule, "move_cell|anchors", len(copies) >= 1 and len(reentries) >= 1,
+          "move_cell: expected a style copy and at least one re-entry call, found %d / %d" % (len(copies), len(reentries)), b.file, b.line)
+    for rb, rt in reentries:
+        name = (b.callee_q(rt) or "").rsplit("::", 1)[-1]
+        after_copy = any(rb in b.strictly_after(cb) for cb, _ in copies)
+        copy_follows = any(cb in b.strictly_after(rb) for cb, _ in copies)
+        f, l = b.loc(rb)
+        ck.ob(rule, "move_cell|%s-before-style-copy" % name, copy_follows and not after_copy,
+              "move_cell calls %s after (or without a following) copy of the source style: the number format inferred from the "
+              "formula's operands overrides the cell's own format when rows/columns are inserted, deleted or moved" % name, f, l,
+              sample={"reentry": name})
